@@ -355,6 +355,12 @@ fn c07_schemas(ctx: &Ctx) -> Vec<Value> {
         }
     }
     v.extend(jsongen::ref_chain_schemas());
+    for s in jsongen::unsat_leaf_schemas() {
+        // (the whitespace variants of this check assume the default whitespace options)
+        if !s.to_string().contains("allOf") && !s.to_string().contains("pattern") && s.get("x-guidance").is_none() {
+            v.push(s);
+        }
+    }
     v.push(json!({"const": 5.0}));
     v.push(json!({"enum": [1.5, 2.0, "x"]}));
     v.push(json!({"type": "object", "properties": {"a": {"type": "integer"}, "b": {"type": "string", "maxLength": 2}, "c": {"type": "array", "items": {"type": "boolean"}, "maxItems": 2}}, "required": ["b"]}));
@@ -375,8 +381,22 @@ pub fn run(ctx: &Ctx) -> Coverage {
         let fb = Factory::new(&b256, &Slices::Default).unwrap();
         let root_b = match fb.try_matcher(&g) {
             Ok(r) => r,
-            Err(_) => {
+            Err(e) => {
                 ctx.count("schemas_refused", 1);
+                let gen = Gen { root: schema };
+                let n = gen.cands(schema, 0, top_cap).len();
+                if n > 0 {
+                    // a schema of the supported subset with a valid instance must compile: refusing it
+                    // loses every instance at once
+                    ctx.violation(Violation {
+                        check: "schema_refused".into(),
+                        class: "supported-schema-with-instances-refused".into(),
+                        signature: format!("refused|{}", schema),
+                        detail: json!({"kind": "json_instance", "schema": schema, "valid_instances_in_universe": n, "error": e.lines().next().unwrap_or("")}),
+                    });
+                } else {
+                    ctx.count("schemas_refused_without_valid_instance", 1);
+                }
                 return;
             }
         };
